@@ -6,6 +6,6 @@ open SafeNet.Driver
 prints candidate counterexamples found in the model. -/
 def main (args : List String) : IO UInt32 := do
   match args with
-  | [] => loop (← IO.getStdin) BootCache.step (SafeNet.BootCache.Sys.init SafeNet.BootCache.Cfg.default 1); return 0
+  | [] => loop (← IO.getStdin) BootCache.dstep BootCache.DState.init; return 0
   | ["search"] => (BootCache.searchCandidates.forM IO.println); return 0
   | _ => IO.eprintln "usage: drv_bootcache [search] < ops.txt"; return 2
